@@ -103,12 +103,17 @@ impl StarkProof {
 
         let fri = self.proof_parameters.stark.fri.clone();
 
+        anyhow::ensure!(
+            fri.proof_of_work_bits <= u8::MAX as u32,
+            "proof_of_work_bits does not fit the verifier's 8-bit difficulty"
+        );
         let proof_of_work = ProofOfWorkConfig { n_bits: fri.proof_of_work_bits };
         let n_queries = fri.n_queries;
 
         let layer_log_sizes = self.layer_log_sizes(&self.public_input.dynamic_params)?;
 
         let fri_step_list = fri.fri_step_list;
+        anyhow::ensure!(!fri_step_list.is_empty(), "Empty fri_step_list");
         let log_last_layer_degree_bound = log2_if_power_of_2(fri.last_layer_degree_bound)
             .ok_or(anyhow::anyhow!("Invalid last layer degree bound"))?;
         let fri = FriConfig {
@@ -118,7 +123,7 @@ impl StarkProof {
                 .iter()
                 .zip(layer_log_sizes[2..].iter())
                 .map(|(layer_steps, layer_log_rows)| TableCommitmentConfig {
-                    n_columns: 2_u32.pow(*layer_steps),
+                    n_columns: 2_u32.checked_pow(*layer_steps).unwrap_or(u32::MAX),
                     vector: VectorCommitmentConfig {
                         height: *layer_log_rows,
                         n_verifier_friendly_commitment_layers,
@@ -145,15 +150,19 @@ impl StarkProof {
         dynamic_params: &Option<BTreeMap<String, u32>>,
     ) -> anyhow::Result<u32> {
         let consts = self.public_input.layout.get_dynamics_or_consts(dynamic_params);
-        let effective_component_height = Self::COMPONENT_HEIGHT * consts.cpu_component_step;
-        log2_if_power_of_2(effective_component_height * self.public_input.n_steps)
-            .ok_or(anyhow::anyhow!("Invalid cpu component step"))
+        let trace_length = Self::COMPONENT_HEIGHT
+            .checked_mul(consts.cpu_component_step)
+            .and_then(|height| height.checked_mul(self.public_input.n_steps))
+            .ok_or(anyhow::anyhow!("Trace length overflows"))?;
+        log2_if_power_of_2(trace_length).ok_or(anyhow::anyhow!("Invalid cpu component step"))
     }
     fn log_eval_damain_size(
         &self,
         dynamic_params: &Option<BTreeMap<String, u32>>,
     ) -> anyhow::Result<u32> {
-        Ok(self.log_trace_domain_size(dynamic_params)? + self.proof_parameters.stark.log_n_cosets)
+        self.log_trace_domain_size(dynamic_params)?
+            .checked_add(self.proof_parameters.stark.log_n_cosets)
+            .ok_or(anyhow::anyhow!("Evaluation domain size overflows"))
     }
     fn layer_log_sizes(
         &self,
@@ -161,7 +170,13 @@ impl StarkProof {
     ) -> anyhow::Result<Vec<u32>> {
         let mut layer_log_sizes = vec![self.log_eval_damain_size(dynamic_params)?];
         for layer_step in &self.proof_parameters.stark.fri.fri_step_list {
-            layer_log_sizes.push(layer_log_sizes.last().unwrap() - layer_step);
+            layer_log_sizes.push(
+                layer_log_sizes
+                    .last()
+                    .unwrap()
+                    .checked_sub(*layer_step)
+                    .ok_or(anyhow::anyhow!("FRI steps exceed the evaluation domain size"))?,
+            );
         }
         Ok(layer_log_sizes)
     }
@@ -398,6 +413,10 @@ impl TryFrom<StarkProof> for stark_proof::StarkProof {
             &value.annotations.iter().map(String::as_str).collect::<Vec<_>>(),
             value.proof_parameters.stark.fri.fri_step_list.len(),
         )?;
+        anyhow::ensure!(
+            annotations.proof_of_work_nonce.bits() <= 64,
+            "Proof of work nonce does not fit in 64 bits"
+        );
         let public_input = StarkProof::public_input(
             value.public_input.clone(),
             annotations.z.clone(),
